@@ -73,12 +73,12 @@ theorem pack_sub (i : Input) : ∀ m ∈ (pack i).msgs, m ∈ (packRaw i).msgs :
 /-- an MP_REACH_NLRI of the output: requested MP announces of ONE family with ONE next hop, each of
     which fits alone -/
 def Rg (i : Input) (r : Mp) : Prop :=
-  r.hdr = 5 + r.nhLen ∧ ∀ x ∈ r.items, x ∈ mpAnns i ∧ x.fam = r.fam ∧ x.nh = r.nh ∧ x.nhLen = r.nhLen ∧
+  r.hdr = 5 + r.nhLen ∧ 0 < sz r.items ∧ ∀ x ∈ r.items, x ∈ mpAnns i ∧ x.fam = r.fam ∧ x.nh = r.nh ∧ x.nhLen = r.nhLen ∧
     23 + chosenAttr i + attrLen (5 + x.nhLen + x.size) ≤ i.M
 
 /-- an MP_UNREACH_NLRI of the output: requested MP withdraws of one family, only with `include_withdraw` -/
 def Ug (i : Input) (u : Mp) : Prop :=
-  i.includeWithdraw = true ∧ u.hdr = 3 ∧ ∀ x ∈ u.items, x ∈ mpWds i ∧ x.fam = u.fam ∧
+  i.includeWithdraw = true ∧ u.hdr = 3 ∧ 0 < sz u.items ∧ ∀ x ∈ u.items, x ∈ mpWds i ∧ x.fam = u.fam ∧
     23 + chosenAttr i + attrLen (3 + x.size) ≤ i.M
 
 /-- what the classic NLRI field may hold -/
@@ -89,7 +89,7 @@ def W4g (i : Input) (x : Nlri) : Prop :=
 
 theorem v4WdPart_sec {A4 W4 : Nlri → Prop} {R U : Mp → Prop} (inclW : Bool) (ms attr : Nat) (vw w a : List Nlri)
     (hx : inclW = true → ∀ x ∈ vw, x.size ≤ ms → W4 x) (ha : ∀ x ∈ a, A4 x) (hw : ∀ x ∈ w, W4 x) :
-    (∀ m ∈ (v4WdPart inclW ms attr vw w a).msgs, SecOK A4 W4 R U m) ∧
+    (∀ m ∈ (v4WdPart inclW ms attr vw w a).msgs, SecOK attr A4 W4 R U m) ∧
     (∀ x ∈ (v4WdPart inclW ms attr vw w a).a, A4 x) ∧ (∀ x ∈ (v4WdPart inclW ms attr vw w a).w, W4 x) := by
   unfold v4WdPart
   split
@@ -97,7 +97,7 @@ theorem v4WdPart_sec {A4 W4 : Nlri → Prop} {R U : Mp → Prop} (inclW : Bool) 
   · exact ⟨by simp, ha, hw⟩
 
 theorem packRaw_sections (i : Input) :
-    ∀ m ∈ (packRaw i).msgs, SecOK (A4g i) (W4g i) (Rg i) (Ug i) m := by
+    ∀ m ∈ (packRaw i).msgs, SecOK (chosenAttr i) (A4g i) (W4g i) (Rg i) (Ug i) m := by
   intro m hm
   unfold packRaw at hm
   split at hm
@@ -130,15 +130,15 @@ theorem packRaw_sections (i : Input) :
         · refine famLoop_sec (A4 := A4g i) (W4 := W4g i) (R := Rg i) (U := Ug i) i.includeWithdraw ms (chosenAttr i)
             (mpAnns i) (mpWds i) ?_ ?_ (mpFams i) m hm
           · intro f r hr
-            obtain ⟨h1, h2, h3⟩ := reachGen_sec ms f _ r hr
-            refine ⟨h2, ?_⟩
+            obtain ⟨h1, h2, hne, h3⟩ := reachGen_sec ms f _ r hr
+            refine ⟨h2, hne, ?_⟩
             intro x hx
             obtain ⟨hxa, hnh, hnl, hfit⟩ := h3 x hx
             have := List.mem_filter.1 hxa
             exact ⟨this.1, by rw [h1]; simpa using this.2, hnh, hnl, by omega⟩
           · intro hi f u hu
-            obtain ⟨h1, h2, h3⟩ := unreachGen_sec ms f _ u hu
-            refine ⟨hi, h2, ?_⟩
+            obtain ⟨h1, h2, hne, h3⟩ := unreachGen_sec ms f _ u hu
+            refine ⟨hi, h2, hne, ?_⟩
             intro x hx
             obtain ⟨hxw, hfit⟩ := h3 x hx
             have := List.mem_filter.1 hxw
